@@ -8,6 +8,10 @@ Input lines
   {"explicit": VAL, "prev": VAL|null, "base": path}-> {"ok": VAL} | {"err": kind}    (shortToExplicit)
   {"walk": {"keys": [s], "both": [s]}}             -> {"handled": [s]}                (discardWalk with the separator of the source)
   {"dataspec": {"decl": path, "val": VAL}}         -> {"fields": [[k, VAL]] | null}   (dataFieldsOf)
+  {"dcarg": {"kind": "optData"|"listData"|"dictData"|"dataOrCls"|"clsOrData", "decl": path, "fields": [PARAM], "base": path, "values": [VAL]}}
+                                                   -> {"ok": VAL|null, "built": path|null} | {"err": kind}   (dataAll / unionAll)
+  {"cty": CTY, "value": VAL, "fuel": n}            -> {"ok": VAL, "ctors": [CTOR]} | {"err": kind}            (adaptCAll)
+     CTY = ["cls", path] | ["opt", CTY] | ["list", CTY] | ["dict", CTY]
 ENV   = {"classes":[{"path":s,"name":s,"abstract":b,"params":[PARAM]}], "edges":[[sub,super]],
          "imports":[[path, {"k":"cls","path":s} | {"k":"func","path":s,"ret":s,"params":[PARAM]} | {"k":"other"}]]}
 PARAM = {"name":s, "ty":["scalar"|"optScalar"|"cls"|"optCls", s], "dflt": [] | [VAL]}
@@ -89,6 +93,16 @@ def tyOfJson (j : Json) : PTy :=
   | .arr #[.str _, .str t] => .scalar t
   | _ => .scalar "?"
 
+instance : Inhabited CTy := ⟨.cls "?"⟩
+
+partial def ctyOfJson (j : Json) : CTy :=
+  match j with
+  | .arr #[.str "opt", t] => .opt (ctyOfJson t)
+  | .arr #[.str "list", t] => .list (ctyOfJson t)
+  | .arr #[.str "dict", t] => .dict (ctyOfJson t)
+  | .arr #[.str _, .str b] => .cls b
+  | _ => .cls "?"
+
 def paramOfJson (j : Json) : IParam :=
   { name := getStr j "name", ty := tyOfJson (j.getObjVal? "ty" |>.toOption |>.getD .null),
     dflt := match getArr j "dflt" with
@@ -158,6 +172,29 @@ def step (E : ClassEnv) (j : Json) : Json × ClassEnv :=
     let keys := strs "keys"
     let both := strs "both"
     (Json.mkObj [("handled", .arr ((discardWalk Jap.Gen.discardPruneSep (fun k => both.contains k) keys.length keys).map Json.str).toArray)], E)
+  | _ =>
+  match j.getObjVal? "dcarg" with
+  | .ok d =>
+    -- a dataclass-typed argument (alone, or in a Union with a class member) over several sources, final check included
+    let fields := (getArr d "fields").map paramOfJson
+    let decl := getStr d "decl"
+    let vals := (getArr d "values").map valOfJson
+    let kind := getStr d "kind"
+    let res : Except Err (Option Val) :=
+      if kind == "dataOrCls" then unionAll E (getNat j "fuel" 24) ⟨fields, decl, getStr d "base", true⟩ vals
+      else if kind == "clsOrData" then unionAll E (getNat j "fuel" 24) ⟨fields, decl, getStr d "base", false⟩ vals
+      else dataAll fields decl (kind == "optData") vals
+    match res with
+    | .error e => (Json.mkObj [("err", .str (errStr e))], E)
+    | .ok none => (Json.mkObj [("ok", .null), ("built", .null)], E)
+    | .ok (some r) =>
+      (Json.mkObj [("ok", valToJson r), ("built", match builtClass decl r with | some c => .str c | none => .null)], E)
+  | _ =>
+  match j.getObjVal? "cty" with
+  | .ok t =>
+    match adaptCAll E (getNat j "fuel" 24) (ctyOfJson t) (valOfJson (j.getObjVal? "value" |>.toOption |>.getD .null)) with
+    | .error e => (Json.mkObj [("err", .str (errStr e))], E)
+    | .ok r => (Json.mkObj [("ok", valToJson r), ("ctors", .arr ((instantiate r).map ctorToJson).toArray)], E)
   | _ =>
   match j.getObjVal? "dataspec" with
   | .ok d =>
